@@ -26,6 +26,15 @@ Msg(j) == CASE j.t = "GB" -> [t |-> "GB", loc |-> j.loc]
 ObsChan(p, s, r) == IF S(s) \in DOMAIN p.chan /\ S(r) \in DOMAIN p.chan[S(s)]
                     THEN [i \in 1..Len(p.chan[S(s)][S(r)]) |-> Msg(p.chan[S(s)][S(r)][i])] ELSE << >>
 
+Watched(e) == IF e.only = 0 THEN Nodes ELSE {e.only}
+ModelMatchesE(e) ==
+  LET p == e.post IN
+  /\ \A n \in Watched(e) : /\ ObsHas(p, n) = has'[n] /\ p.nodes[S(n)].head = head'[n] /\ p.nodes[S(n)].pool = pool'[n]
+                      /\ p.nodes[S(n)].fetching = fetching'[n]
+                      /\ \A m \in Peers[n] : /\ p.nodes[S(n)].waiting[S(m)] = waiting'[n][m]
+                                             /\ p.nodes[S(n)].backoff[S(m)] = backoff'[n][m]
+                                             /\ p.nodes[S(n)].inv[S(m)] = inv'[n][m]
+  /\ e.only # 0 \/ \A s \in Nodes : \A r \in Peers[s] : ObsChan(p, s, r) = chan'[s][r]
 ModelMatches(p) ==
   /\ \A n \in Nodes : /\ ObsHas(p, n) = has'[n] /\ p.nodes[S(n)].head = head'[n] /\ p.nodes[S(n)].pool = pool'[n]
                       /\ p.nodes[S(n)].fetching = fetching'[n]
@@ -35,17 +44,18 @@ ModelMatches(p) ==
   /\ \A s \in Nodes : \A r \in Peers[s] : ObsChan(p, s, r) = chan'[s][r]
 
 PClause(e) ==
-  LET p == e.post IN
-  IF \E n \in Nodes : p.nodes[S(n)].escaped THEN "C10:exception_escaped_a_handler"
-  ELSE IF \E n \in Nodes : SetOf(p.nodes[S(n)].open) # Peers[n] THEN "C10:honest_peer_disconnected"
-  ELSE IF \E n \in Nodes : \E b \in ObsHas(p, n) : b \in DOMAIN Parent /\ Parent[b] \notin ObsHas(p, n) THEN "C10:stored_blocks_not_parent_closed"
-  ELSE IF \E n \in Nodes : p.nodes[S(n)].head \notin ObsHas(p, n) THEN "C10:head_not_stored"
+  LET p == e.post
+      W == Watched(e) IN
+  IF \E n \in W : p.nodes[S(n)].escaped THEN "C10:exception_escaped_a_handler"
+  ELSE IF \E n \in W : SetOf(p.nodes[S(n)].open) # Peers[n] THEN "C10:honest_peer_disconnected"
+  ELSE IF \E n \in W : \E b \in ObsHas(p, n) : b \in DOMAIN Parent /\ Parent[b] \notin ObsHas(p, n) THEN "C10:stored_blocks_not_parent_closed"
+  ELSE IF \E n \in W : p.nodes[S(n)].head \notin ObsHas(p, n) THEN "C10:head_not_stored"
   ELSE IF \E s \in Nodes : \E r \in Peers[s] : \E i \in 1..Len(ObsChan(p, s, r)) :
              ObsChan(p, s, r)[i].t = "INV" /\ Len(ObsChan(p, s, r)[i].items) > Batch THEN "C10:inventory_larger_than_batch"
   ELSE IF \E i \in 1..Len(e.relays) : e.relays[i][4] > 1 THEN
          (IF e.relays[CHOOSE i \in 1..Len(e.relays) : e.relays[i][4] > 1][2] = "block"
           THEN "C10:block_relayed_more_than_once" ELSE "C10:transaction_relayed_more_than_once")
-  ELSE IF e.settled /\ \E n \in Nodes : p.nodes[S(n)].head \in DOMAIN Parent /\ Height(p.nodes[S(n)].head) # MaxInitialHeight
+  ELSE IF e.settled /\ \E n \in W : p.nodes[S(n)].head \in DOMAIN Parent /\ Height(p.nodes[S(n)].head) # MaxInitialHeight
        THEN "C10:not_converged_when_settled"
   ELSE IF e.settled /\ \E t \in Txs : (\E n \in Nodes : t \in SetOf(p.nodes[S(n)].pool)) /\ (\E n \in Nodes : t \notin SetOf(p.nodes[S(n)].pool))
        THEN "C10:transaction_did_not_reach_every_pool"
@@ -56,6 +66,7 @@ Apply(e) ==
     [] e.a = "tick" -> /\ fetching' = [x \in Nodes |-> << >>] /\ backoff' = [x \in Nodes |-> [y \in Nodes |-> FALSE]]
                        /\ UNCHANGED << has, head, pool, waiting, inv, chan, relayedB, relayedT, budget, qrounds, done >>
     [] e.a = "deliver" -> IF chan[e.n][e.m] # << >> THEN Deliver(e.n, e.m) ELSE UNCHANGED nvars
+    [] e.a = "inject" -> DeliverMsg(e.n, e.m, Msg(e.msg), chan)      \* local validation: the message is an input from the environment
     [] e.a = "orig" -> IF \A k \in 1..Len(pool[e.n]) : pool[e.n][k] # e.m THEN Originate(e.n, e.m) ELSE UNCHANGED nvars
     [] OTHER -> UNCHANGED nvars
 
@@ -65,7 +76,7 @@ TNext ==
   /\ LET e == Ev[l] IN
      /\ Apply(e)
      /\ LET c == PClause(e) IN
-        /\ (e.compare /\ ~ModelMatches(e.post) => PrintT(ToJson(<< "DRIFT", Traces[tid].id, l, "state after " \o e.a \o " differs from Net" >>)))
+        /\ (e.compare /\ ~ModelMatchesE(e) => PrintT(ToJson(<< "DRIFT", Traces[tid].id, l, "state after " \o e.a \o " differs from Net" >>)))
         /\ IF c # "" THEN Out(c) /\ l' = Len(Ev) + 1
            ELSE /\ l' = l + 1 /\ ((l + 1 > Len(Ev)) => Out("ok"))
 TSpec == TInit /\ [][TNext]_tv
